@@ -94,15 +94,28 @@ def gen_card(rs):
             # options shared by all decays of the top particle, declared once on the particle
             card["particle"]["$top"]["A"]["decay_params"] = {"barrier_factor_norm": rs.chance(0.5)}
     if kind in ("S3", "V3") and rs.chance(0.5):
+        # a decay lists its two daughters in either order
+        for core in list(card["decay"]):
+            v = card["decay"][core]
+            if v and all(isinstance(x, list) for x in v):
+                card["decay"][core] = [([d[1], d[0]] + d[2:]) if rs.chance(0.5) else d for d in v]
+            elif len(v) >= 2 and all(isinstance(x, str) for x in v[:2]) and rs.chance(0.5):
+                card["decay"][core] = [v[1], v[0]] + v[2:]
+    if kind in ("S3", "V3") and rs.chance(0.5):
         # constraints declared in the card: floating mass with a range, fixed chain, Gaussian constraint
         res = [k for k, v in card["particle"].items() if isinstance(v, dict) and k.startswith(("R_", "X")) and "mass" in v]
         if res:
             r = rs.choice(res)
             card["particle"][r]["float"] = rs.choice(["m", "mg", "g"])
-            card["particle"][r]["params"] = {"mass_min": round(card["particle"][r]["mass"] - 0.2, 3), "mass_max": round(card["particle"][r]["mass"] + 0.2, 3)}
+            lo_, hi_ = round(card["particle"][r]["mass"] - 0.2, 3), round(card["particle"][r]["mass"] + 0.2, 3)
+            if "m" in card["particle"][r]["float"] and rs.chance(0.4):
+                # the other documented way of declaring the same range: constrains: var_range
+                card.setdefault("constrains", {}).setdefault("var_range", {})[r + "_mass"] = [lo_, hi_]
+            else:
+                card["particle"][r]["params"] = {"mass_min": lo_, "mass_max": hi_}
             if rs.chance(0.4) and "m" in card["particle"][r]["float"]:
                 card["particle"][r]["gauss_constr"] = {"m": 0.05}
-        card["constrains"] = {"decay": {"fix_chain_idx": 0, "fix_chain_val": 1.0}}
+        card.setdefault("constrains", {})["decay"] = {"fix_chain_idx": 0, "fix_chain_val": 1.0}
         card["_tie"] = rs.chance(0.4)
     return card
 
@@ -218,6 +231,20 @@ def allowed(ja, pa, jb, pb, jc, pc, p_break):
             l += 1
         s += 1
     return False
+
+
+def ref_ls(ja, pa, jb, pb, jc, pc, p_break):
+    """all (l, s) couplings of a -> b c: |jb-jc| <= s <= jb+jc, |ja-s| <= l <= ja+s, l integer, parity"""
+    out = []
+    s = abs(jb - jc)
+    while s <= jb + jc:
+        l = abs(ja - s)
+        while l <= ja + s:
+            if l.denominator == 1 and (p_break or pa is None or pa == pb * pc * (-1) ** int(l)):
+                out.append((str(l), str(s)))
+            l += 1
+        s += 1
+    return sorted(out)
 
 
 def ref_chains(card):
@@ -386,6 +413,43 @@ def execute(spec):
                                 raise Failure()
                         if forbidden_set:
                             log.count("probe.card_with_forbidden_chain")
+                        # ---- (l,s) couplings of every decay of the model: exactly those the selection rules allow
+                        ec, _ = v_expanded(card)
+                        part_ = {}
+                        for pk, pv in ec["particle"].items():
+                            if pk in ("$top", "$finals"):
+                                part_.update(pv)
+                            elif isinstance(pv, dict):
+                                part_[pk] = pv
+                        pbreak = {}
+                        for core_, outs_ in ec["decay"].items():
+                            for d_ in outs_ if all(isinstance(x, list) for x in outs_) else [outs_]:
+                                names_ = tuple(sorted(x for x in d_ if not isinstance(x, dict)))
+                                pbreak[(core_, names_)] = any(isinstance(x, dict) and x.get("p_break") for x in d_)
+                        for ch in cfg.get_decay():
+                            for d_ in ch:
+                                key_ = (str(d_.core), tuple(sorted(str(o) for o in d_.outs)))
+                                if key_ not in pbreak or any(str(x) not in part_ for x in [d_.core] + list(d_.outs)):
+                                    continue
+                                q = lambda n: (half(part_[n].get("J", 0)), part_[n].get("P", part_[n].get("Par")))
+                                (ja, pa), (jb, pb_), (jc, pc_) = q(str(d_.core)), q(str(d_.outs[0])), q(str(d_.outs[1]))
+                                want_ls = ref_ls(ja, pa, jb, pb_, jc, pc_, pbreak[key_])
+                                have_ls = sorted((str(Fraction(float(a)).limit_denominator(4)), str(Fraction(float(b)).limit_denominator(4))) for a, b in d_.get_ls_list())
+                                if have_ls != want_ls:
+                                    log.fail("same-card-same-model", "load|ls-couplings", "decay %s has the (l,s) couplings %s, the selection rules give %s" % (d_, have_ls, want_ls), step=i)
+                                    raise Failure()
+                        # ---- declared ranges (either form) are the ranges of the model
+                        want_b = {}
+                        for pn, pv in card["particle"].items():
+                            if isinstance(pv, dict) and "m" in str(pv.get("float", "")) and "params" in pv and ("mass_min" in pv["params"] or "mass_max" in pv["params"]):
+                                want_b[pn + "_mass"] = [pv["params"].get("mass_min"), pv["params"].get("mass_max")]
+                        for vn, vr in (card.get("constrains", {}).get("var_range") or {}).items():
+                            want_b[vn] = list(vr)
+                        have_b = {kk: list(vv) for kk, vv in obs["bounds"]}
+                        for vn, vr in want_b.items():
+                            if vn in obs["trainable"] + obs["fixed"] and have_b.get(vn) != vr:
+                                log.fail("same-card-same-model", "load|declared-range-lost", "the card declares the range %s for %s, the loaded configuration holds %s" % (vr, vn, have_b.get(vn)), step=i)
+                                raise Failure()
                     if base_obs is None:
                         base_obs, base_cfg = obs, cfg
                         log.ev("base", obs=obs)
